@@ -84,5 +84,5 @@ def mutants():
     return [
         Mutant("parse_opcode:size-not-lower-cased", PS + "parse_opcode", textual("size = p.current().value.lower()", "size = p.current().value"), only_harness="parse_opcode"),
         Mutant("parse_operand:inner-index-not-lower-cased", PS + "parse_operand_and_addressing", textual("inner_index = p.current().value.lower()", "inner_index = p.current().value"), only_harness="parse_opcode"),
-        Mutant("parse_decl:comment-not-consumed", PS + "parse_decl", textual("    current_token = p.next()\\n    if accept_token(current_token, TokenType.COMMENT):\\n        return None", "    current_token = p.next()\\n    if accept_token(current_token, TokenType.COMMENT):\\n        p.backup()\\n        return None"), only_harness="comment"),
+        Mutant("parse_decl:comment-not-consumed", PS + "parse_decl", textual("    current_token = p.next()\n    if accept_token(current_token, TokenType.COMMENT):\n        return None", "    current_token = p.next()\n    if accept_token(current_token, TokenType.COMMENT):\n        p.backup()\n        return None"), only_harness="comment"),
     ]
